@@ -1224,6 +1224,9 @@ func c16CertHost(r *vfRand, names []string) (host, class string) {
 	l, l2 := vfPick(r, c16CertLabels), vfPick(r, c16CertLabels)
 	switch r.Intn(20) {
 	case 0, 1:
+		if wild {
+			return l + "." + d, "rel-one-label"
+		}
 		return n, "rel-equal-text"
 	case 2, 3, 4:
 		return l + "." + d, "rel-one-label"
@@ -1321,6 +1324,8 @@ func c16CertPrelude(out *vfOut) {
 		{[]string{"zeta.example.org", "alpha.example.org", "*.beta.example.org", "mid.example.org", "beta.example.org"}, "", true, "xbeta.example.org", "cert-lookalike-nodot"},
 		{[]string{"*.example.org", "evilexample.org"}, "", true, "evilexample.org", "cert-exact"},
 		{[]string{"*.example.org", "*.evilexample.org"}, "", true, "alice.evilexample.org", "cert-wild-one-label"},
+		{[]string{"*.example.org", "*.example.com"}, "", true, "alice.example.org", "cert-wild-second"},
+		{[]string{"*.example.org", "*.example.com"}, "", true, "alice.example.com", "cert-wild-second"},
 		{[]string{"*.example.org", "*.dns.example.org", "Example.ORG"}, "", true, "Example.ORG", "cert-exact"},
 		{[]string{"*.example.org", "*.dns.example.org", "Example.ORG"}, "", true, "example.org", "cert-case"},
 		{nil, "example.org", true, "example.org", "cert-no-names"},
@@ -1378,7 +1383,7 @@ func c16CertPrelude(out *vfOut) {
 
 func c16CertStream(out *vfOut, rnd *vfRand) {
 	rh := rnd.Fork(11)
-	nSets := out.Scale(60, 400)
+	nSets := out.Scale(48, 400)
 	perSet := out.Scale(25, 40)
 	for i := 0; i < nSets; i++ {
 		sans := c16CertNameSet(rh)
@@ -1395,7 +1400,7 @@ func c16CertStream(out *vfOut, rnd *vfRand) {
 		}
 	}
 	ra := rnd.Fork(12)
-	n := out.Scale(1200, 8000)
+	n := out.Scale(900, 8000)
 	for i := 0; i < n; i++ {
 		names := c16CertNameSet(ra)
 		if ra.Chance(2, 3) {
@@ -1405,7 +1410,7 @@ func c16CertStream(out *vfOut, rnd *vfRand) {
 		c16EmitAny(out, names, host, []string{cl})
 	}
 	rw := rnd.Fork(13)
-	n = out.Scale(1200, 8000)
+	n = out.Scale(900, 8000)
 	for i := 0; i < n; i++ {
 		pat := c16CertPattern(rw)
 		host, cl := c16CertHost(rw, []string{pat})
